@@ -10,12 +10,15 @@ PROP = dict(
                    "or with Add inside the goroutine, has a schedule that returns with a closer not invoked (counterexample theorems).",
         level_note="Modelled, not verified: sync.WaitGroup (atomic counter, Wait enabled at 0), goroutine creation; the model cannot show "
                    "scheduler starvation, a closer that never returns, or a panic inside a closer goroutine. The tie to the code is the "
-                   "regenerated skeleton (C14_skeleton) plus real App.Close runs with 0-16 closers, delays 0-30 ms, random error subsets.",
+                   "regenerated skeleton (C14_skeleton) plus real App.Close runs with 0-62 closers, delays 0-30 ms, random error subsets, "
+                   "closers of zero-size types among them (a component's address is not its identity).",
         subs=[dict(sub="close", driver="conc", n_quick=150, n_thorough=1000)],
         thorough_seeds=3,
         rule="close <n> <errmask> <seed>: n uniform in 0..16; error subset empty (25%), everyone (25%) or random (50%); each closer "
              "sleeps 0 ms (half of them) or uniformly 0-30 ms; counters and completion flags are read immediately after App.Close "
-             "returns; the model side runs one pseudo-random schedule of the proven transition system per scenario and samples at the "
+             "returns; a third of the cases are `closez <n> <errmask> <zmask> <seed>`: 1-8 of the closers (zmask) are stateless values "
+             "of DISTINCT zero-size struct types (all at one address), their calls/returns counted per type in package-level "
+             "counters; the model side runs one pseudo-random schedule of the proven transition system per scenario and samples at the "
              "step main returns; n = 0 is labelled trivial; distinct = distinct scenario lines",
         trusted_base=COMMON_TB + ["the reading of Facts.closeSkel into guards (Ioc.Conc.closeShape) and the go/ast skeleton extractor "
                                   "(harness/cmd/facts: calls named Add/Done/Wait/Close, go statements, loops, branches)",
